@@ -3,6 +3,9 @@
 (* reset = [counter, tima, tma, tac] as read back after the driver's setup   *)
 (* (TAC disabled during setup, so the edge detector input is low).           *)
 (* events: ["t", div, tima, irq]  tick + what was read / reported afterwards *)
+(*         (ROM traces, recorded inside the real frame loop: irq is derived  *)
+(*         from IF bit 2 and is -1 where the bit was already set or the      *)
+(*         program wrote IF in that cycle)                                   *)
 (*         ["wd"] ["wt", v] ["wm", v] ["wc", v]  register writes             *)
 EXTENDS Timer, Json, IOUtils
 
@@ -22,7 +25,8 @@ TInit == /\ sc \in 1..Len(Scens) /\ l = 1
 TNext == /\ l <= Len(Scens[sc].ev)
          /\ l' = l + 1 /\ UNCHANGED sc
          /\ LET e == Ev IN
-            CASE e[1] = "t"  -> Tick(e[4]) /\ DIV' = e[2] /\ tima' = e[3]
+            CASE e[1] = "t"  -> /\ IF e[4] < 0 THEN \E i \in {0, 1} : Tick(i) ELSE Tick(e[4])   \* -1: the request was not observable
+                                /\ DIV' = e[2] /\ tima' = e[3]
               [] e[1] = "wd" -> WDiv
               [] e[1] = "wt" -> WTima(e[2])
               [] e[1] = "wm" -> WTma(e[2])
